@@ -989,7 +989,7 @@ def main():
     for name, c in vlib.load_corpus(PROP):
         run_case(ck, c, use_model)
     big = 0.04 if ck.tier == "quick" else 0.06
-    explore(ck, ck.budget(170, 3200), ck.budget(60, 1200), ck.budget(40, 600), big, use_model)
+    explore(ck, ck.budget(130, 1800), ck.budget(50, 800), ck.budget(30, 400), big, use_model)
     if ck.broken() and not ck.violations:
         # failing-input search on the real code with the larger budget (oracle only)
         explore(ck, 1500, 600, 300, 0.05, use_model=False)
